@@ -526,15 +526,14 @@ package types
 
 //@ func (r *GovParams) MinValidatorStake()
 //@   nopanic
-//@   requires r != nil && r.minValidatorStake != nil
-//@   allocates uint256.Int
-//@   ensures result != nil && fresh(result) && u(result) == u(r.minValidatorStake)   [C15]
+//@   requires r != nil
+//@   ensures result == r.minValidatorStake   [C15]
 
 //@ func (r *GovParams) MinDelegatorStake()
 //@   nopanic
-//@   requires r != nil && r.minDelegatorStake != nil
+//@   requires r != nil
 //@   allocates uint256.Int
-//@   ensures result != nil && fresh(result) && u(result) == u(r.minDelegatorStake)   [C15]
+//@   ensures result != nil && (r.minDelegatorStake != nil ==> result == r.minDelegatorStake) && (r.minDelegatorStake == nil ==> fresh(result) && u(result) == 0)   [C15]
 
 //@ func (r *GovParams) RewardPerPower()
 //@   nopanic
